@@ -48,6 +48,21 @@ func (f *Font) Subset(glyphs []glyph.ID) *Font {
 		s.newGid[oldGid] = glyph.ID(newgid)
 	}
 
+	// Find all glyphs of the subset before any table is re-keyed: ligatures
+	// between retained glyphs and components of retained composite glyphs.
+	// Components can complete the input of further substitution rules,
+	// so repeat until nothing changes.
+	for {
+		n := len(s.glyphs)
+		s.SubsetGsub(f.Gsub)
+		if outlines, ok := f.Outlines.(*glyf.Outlines); ok {
+			s.addComponents(outlines)
+		}
+		if len(s.glyphs) == n {
+			break
+		}
+	}
+
 	if f.CMapTable != nil {
 		res.CMapTable = make(cmap.Table, len(f.CMapTable))
 		for key := range f.CMapTable {
@@ -60,7 +75,6 @@ func (f *Font) Subset(glyphs []glyph.ID) *Font {
 		}
 	}
 	res.Gsub = s.SubsetGsub(f.Gsub)
-	// At this point we have the final list of glyphs.
 	res.Gpos = s.SubsetGpos(f.Gpos)
 	res.Gdef = s.SubsetGdef(f.Gdef)
 
@@ -469,12 +483,8 @@ func (s *subsetter) SubsetCFF(oldOutlines *cff.Outlines) *cff.Outlines {
 	return newOutlines
 }
 
-func (s *subsetter) SubsetGlyf(oldOutlines *glyf.Outlines) *glyf.Outlines {
-	newOutlines := &glyf.Outlines{
-		Tables: oldOutlines.Tables,
-		Maxp:   oldOutlines.Maxp,
-	}
-
+// addComponents appends the components of composite glyphs to the subset.
+func (s *subsetter) addComponents(oldOutlines *glyf.Outlines) {
 	todo := make(map[glyph.ID]bool, len(s.glyphs))
 	for _, oldGid := range s.glyphs {
 		todo[oldGid] = true
@@ -492,6 +502,15 @@ func (s *subsetter) SubsetGlyf(oldOutlines *glyf.Outlines) *glyf.Outlines {
 			todo[componentGidOld] = true
 		}
 	}
+}
+
+func (s *subsetter) SubsetGlyf(oldOutlines *glyf.Outlines) *glyf.Outlines {
+	newOutlines := &glyf.Outlines{
+		Tables: oldOutlines.Tables,
+		Maxp:   oldOutlines.Maxp,
+	}
+
+	s.addComponents(oldOutlines)
 
 	newOutlines.Glyphs = make([]*glyf.Glyph, len(s.glyphs))
 	for newGid, oldGid := range s.glyphs {
